@@ -25,7 +25,7 @@ RENDER_DIR = os.path.join(hv.VERIF, "harness-render")
 RENDER_BIN = os.path.join(hv.BUILD, "render-target", "release", "hcrender")
 
 SPEC = {
-    "lean_modules": ["Honeycomb.Props.C20", "Honeycomb.Props.C20b"],
+    "lean_modules": ["Honeycomb.Props.C20", "Honeycomb.Props.C20b", "Honeycomb.Props.C20c"],
     "required_theorems": [
         "C20_vertex_entities", "C20_index_map_injective", "C20_index_map_onto", "C20_table_row",
         "C20_dart_start", "C20_dart_end", "C20_edge_entity", "C20_face_corners", "C20_dart_entities_of_face",
@@ -37,6 +37,10 @@ SPEC = {
         "C20_2d_spike_zero", "C20_plane_normal_of_scene",
         "C20_face_normal_keys", "C20_3d_face_normal_keys", "C20_3d_volume_normal_keys",
         "C20_3d_each_dart_once", "C20_3d_no_panic", "faceId3_min", "mem_iterFaces3_iff", "C20_newell_is_vector_area",
+        # Props/C20c.lean: stored normals are unit vectors, in the rounding model
+        "C20c_normalize_unit", "C20c_norm_within", "C20c_normalize_unit_f32", "C20c_bound_f32",
+        "C20c_normal_nonzero_iff_not_straight", "C20c_corner_normal_unit", "C20c_final_normal_unit_partial",
+        "exists_sqrtModel",
     ],
     "trusted_base": [
         "Lean 4.33 kernel; axioms propext, Classical.choice, Quot.sound only",
@@ -65,8 +69,19 @@ SPEC = {
             "sides, every vertex id embedded, 3-D: faces mirrored and 3-linked to a *different* β1-cycle; normals additionally need non-degenerate corners). "
             "distinct_nontrivial = distinct implementation transcripts.",
     "not_proved": [
-        "the IEEE / glam f32 part of the normals: that `normalize` maps a non-zero finite vector to a unit vector within "
-        "1e-4 and the zero vector to NaN, and the f32 rounding of the cross products and sums.  Proved exactly over Q "
+        "normals, floating-point part.  PROVED in the rounding model (Props/C20c.lean): glam's scalar Vec3::normalize "
+        "(dot, sqrt, reciprocal, three products, each rounded) maps EVERY nonzero vector to a vector whose squared norm is "
+        "within 10u of 1 (C20c_normalize_unit; |norm - 1| <= 10u, C20c_norm_within), for binary32 10*2^-24 < 1e-6, two orders "
+        "below the oracle's 1e-4 (C20c_normalize_unit_f32, C20c_bound_f32), under (a) RoundModel fl u - proved for idealised "
+        "binary32 rnd 24 (C19b_roundModel_f32), its identification with the hardware validated by the C19 flop stream, "
+        "overflow/underflow excluded (moderate magnitude, Props/C19c) - and (b) SqrtModel: the sqrt routine has relative "
+        "error u (true of the correctly rounded IEEE sqrt; an ASSUMPTION, satisfiable: exists_sqrtModel).  The plane normal "
+        "of the model is nonzero iff the corner is not straight (C20c_normal_nonzero_iff_not_straight; D20a is exactly the "
+        "excluded case) and is then normalised to a unit vector (C20c_corner_normal_unit).  PARTIAL "
+        "(C20c_final_normal_unit_partial): the finally stored (a*n1 + b*n2).normalize() is unit provided the COMPUTED sum is "
+        "not the zero vector - that rounding cannot cancel the sum of a nearly spiked corner is not proved; nor that the zero "
+        "vector maps to NaN, nor the f32 rounding of the cross products and sums themselves, nor glam's SIMD paths.  "
+        "Proved exactly over Q "
         "(Props/C20b.lean): the 3-D plane normal vec_in x vec_out is the zero vector iff the two sides at the corner are "
         "linearly dependent (C20_D20a_zero_normal_iff, C20_D20a_straight_corner = finding D20a as a theorem), otherwise the "
         "vector handed to the last normalize is non-zero for all positive weights (C20_3d_normal_nonzero); 2-D: the sum is "
